@@ -33,6 +33,9 @@ CHECKS = {
  'C14': dict(level='exploration', ref='§5 C14', world='class',
    text="Histories of constructor arguments for constants, instance sets of the identical / an equal / a different object, update(), class-level sets on declaring and inheriting classes, read-only sets, name sets, nested edit_constant blocks on several instances left normally or by an injected exception, instance Parameter copies created before or after; identity of the held object, TypeError for every forbidden attempt, acceptance inside the object's own block, and constant flags on class and instance Parameter objects are checked after every step.",
    tech="deterministic simulation with injected exceptions in edit_constant bodies; identity/flag invariants after every step"),
+ 'C17': dict(level='exploration', ref='§5 C17', world='copy',
+   text="Restart-from-durable-state simulation: a seeded history drives an object (sets, in-place mutations of an instantiate=True value and of ordinary attributes, per-instance Parameter edits, attach / replace / detach of sub-objects two levels deep, extra watchers), a deepcopy or pickle (protocols 2-5; several per run; copies of copies) is taken at a seeded point, then diverging histories run on both sides; the snapshot must succeed and be equal, share no mutable state, every later operation must be invisible on the other side, and the dependent methods of the operated side - and only those - must run exactly as on a fresh object.",
+   tech="deterministic simulation with snapshot/restore at seeded points (deepcopy, pickle) and diverging histories; equality, independence and dependency-log oracles"),
  'C18': dict(level='exploration', ref='§5 C18', world='selector',
    text="Seeded search over mutation histories of Selector/ListSelector objects (list- and dict-declared, class-level and per-instance): item/key assignment, append, insert, extend, update, pop by index/key, remove, clear, wholesale replacement incl. style switch, interleaved with value assignments; after every step list(objects), objects.items(), names, get_range() and accept/reject of a present and an absent value are compared with a sequential reference container; pop return values and one objects-notification per mutation are checked.",
    tech="deterministic simulation of mutation histories against a sequential reference container (ordered name/object list), five-view agreement invariant after every step"),
